@@ -65,7 +65,7 @@ Definition ua (A : agent) (S : shared) : Prop :=
    seen the tag of that position the position is claimed *)
 Definition att_pc (pc : pcl) : bool :=
   match pc with
-  | R3 | R4 | R5 | R6 | R6b | R7 | R8 | R9 | R10 | KC | R11 | R12 | V1 | V5 | V6 | VK | V4 => true
+  | R4 | R5 | R6 | R6b | R7 | R8 | R9 | R10 | KC | R11 | R12 | V1 | V5 | V6 | VK | V4 => true
   | _ => false
   end.
 
